@@ -210,12 +210,12 @@ structure BmRel (δ : Nat) (bs bw : Bookmark) : Prop where
   pos : bw.pos = bs.pos + δ
   fd : bw.fd = bs.fd
 
-/-- split signal vs whole signal (`endOfInput`: with the text debt `d` at that moment) -/
+/-- split signal vs whole signal, as produced by actions and arm bodies (which never signal
+`endOfInput`; breaks are compared separately) -/
 def SigRel (δ d : Nat) : Option Signal → Option Signal → Prop
   | none, none => True
   | some (.err e), some (.err e') => e' = e
   | some (.directive dr bm), some (.directive dr' bm') => dr' = dr ∧ BmRel δ bm bm'
-  | some (.endOfInput c), some (.endOfInput c') => c' + d = c + δ
   | _, _ => False
 
 /-- the split run hit one of the model's explicit panic branches -/
